@@ -426,6 +426,16 @@ EXTRA['eth2/beacon/altair:ComputeEpochAttesterData'] += [
     '//@   loop 3'] + [_cinv(x) for x in (
         'out != nil && eqseq(currEpochParticipation, %s)' % _CP,
         'out.CurrEpochUnslashedTargetStake == part_sum2(flats, %s, epc.CurrentEpoch.ActiveIndices, rangeindex + 1)' % _CP)]
+# process_sync_committee_updates (C02): the committees rotate exactly when the next epoch starts a sync committee period
+PROPS['eth2/beacon/altair:ProcessSyncCommitteeUpdates'] = ' C02'
+EXTRA.setdefault('eth2/beacon/altair:ProcessSyncCommitteeUpdates', [])
+EXTRA['eth2/beacon/altair:ProcessSyncCommitteeUpdates'] += [
+    '//@   assigns ghost(n_rotate_sync)',
+    '//@   ensures c02_rotation: err == nil && spec != nil && epc != nil && epc.NextEpoch != nil && spec.EPOCHS_PER_SYNC_COMMITTEE_PERIOD != 0 ==> n_rotate_sync == old(n_rotate_sync) + ite(old(epc.NextEpoch.Epoch) % spec.EPOCHS_PER_SYNC_COMMITTEE_PERIOD == 0, 1, 0)']
+for f in ('altair', 'bellatrix', 'capella', 'deneb'):
+    EXTRA.setdefault('eth2/beacon/%s:BeaconStateView.ProcessEpoch' % f, []).append('//@   assigns ghost(n_rotate_sync)')
+for k in ('eth2/beacon/common:ProcessSlots', 'eth2/beacon/common:StateTransition'):
+    EXTRA.setdefault(k, []).append('//@   assigns ghost(n_rotate_sync)')
 # end-of-epoch resets (C02): when they fire and with which epoch
 for n in ('ProcessEth1DataReset', 'ProcessSlashingsReset', 'ProcessRandaoMixesReset', 'ProcessHistoricalRootsUpdate'):
     PROPS['eth2/beacon/phase0:' + n] = ' C02'
